@@ -44,3 +44,26 @@ MORE = {
            "percent-encoded credentials; IPv6 targets; malformed status lines; answers at the size limit x cuts in the "
            "terminator; an injected recv fault counts iff it struck before the whole answer had been handed over.",
 }
+
+# rounds 17 and 18
+MORE2 = {
+    "C01": "constructor arguments (agent / protocols / headers beyond Latin-1) drawn.",
+    "C03": "two compressing senders in the scheduled stage (inflating in wire order).",
+    "C04": "a violating frame after a valid server Close (same verdict under six segmentations, nothing of it delivered); every class with the client's own Close write failing (7 fault kinds).",
+    "C05": "text on a connection where permessage-deflate was offered but declined (fail-fast applies).",
+    "C06": "the offer written by the application with add_header() in any casing; empty elements in the extension list.",
+    "C07": "constructor arguments beyond ASCII / Latin-1 / the BMP (direct, proxy, wss); a real-descriptor stage: the handler closes the session and keeps iterating (PollSelector, SelectSelector).",
+    "C08": "constructor arguments drawn.",
+    "C09": "persist() over 1100 consecutive transport failures (real client); constructor arguments drawn.",
+    "C10": "the earlier-connection dimension now applies to chained runs (it was inert before round 17); residues that look like text lines / a header block.",
+    "C11": "a send that takes 12 / 45 / 400 s followed by other writers, direct / proxy / TLS (sendall on a socket with a timeout gives up half-way).",
+    "C12": "scenarios that start from a close() issued before Ready.",
+    "C13": "every abandonment when the proxy refuses the tunnel; constructor arguments drawn.",
+    "C14": "'Close sent' is judged from the wire; close() before the handshake finished; connect() options passed positionally.",
+    "C15": "a scheduled stage: the automatic Ping falls due while another thread is inside a send.",
+    "C16": "outcomes in which every later write fails for good / times out.",
+    "C18": "a real socketpair run per selector: the peer writes its last frames and is gone at once (POLLIN with POLLHUP).",
+    "C19": "proxy answers of two or three header blocks (1xx / 204 / 407 first).",
+}
+for _k, _v in MORE2.items():
+    MORE[_k] = MORE.get(_k, "Also:").rstrip() + " Since rounds 17-18: " + _v
